@@ -106,11 +106,13 @@ def build_many(specs):
 
 # ------------------------------------------------------------------ known findings
 def load_known():
-    p = os.path.join(ROOT, "known_findings.json")
-    if not os.path.exists(p):
-        return []
-    with open(p) as fh:
-        return json.load(fh).get("findings", [])
+    out = []
+    # VERIF_KNOWN_EXTRA: development aid only (an extra list while a finding is being triaged); never set by MANIFEST commands
+    for p in (os.path.join(ROOT, "known_findings.json"), os.environ.get("VERIF_KNOWN_EXTRA", "")):
+        if p and os.path.exists(p):
+            with open(p) as fh:
+                out += json.load(fh).get("findings", [])
+    return out
 
 
 def sanitizer_env():
